@@ -1157,6 +1157,22 @@ fn fp_cv_valid_fn_unguarded(v: &CountVectorizerValidParams, p: &P, f: &mut Finge
 fn build_cv<const K: u8>(p: &P) -> CountVectorizer {
     cv_params(K, p).fit(&train_docs(p)).expect("count-vectoriser fit")
 }
+/// a vectoriser that has already been through one restore and had its tokenizer function
+/// given back — the value a long-lived service would checkpoint next
+fn build_cv_regenerated(p: &P) -> CountVectorizer {
+    let m = build_cv::<10>(p);
+    let bytes = bincode::serialize(&m).expect("serialize vectoriser");
+    let mut r: CountVectorizer = bincode::deserialize(&bytes).expect("restore vectoriser");
+    r.force_tokenizer_function_redefinition(blank_tokenizer);
+    r
+}
+fn build_tfidf_regenerated(p: &P) -> FittedTfIdfVectorizer {
+    let m = build_tfidf::<10, 0>(p);
+    let bytes = bincode::serialize(&m).expect("serialize tf-idf vectoriser");
+    let mut r: FittedTfIdfVectorizer = bincode::deserialize(&bytes).expect("restore tf-idf vectoriser");
+    r.force_tokenizer_redefinition(blank_tokenizer);
+    r
+}
 fn build_cv_given<const K: u8>(p: &P) -> CountVectorizer {
     cv_params(K, p).fit_vocabulary(&GIVEN_VOCABULARY).expect("count-vectoriser fit_vocabulary")
 }
@@ -1493,6 +1509,7 @@ pub fn register(r: &mut Registry) {
     r.model::<CountVectorizer>("cv_model_given_vocabulary", PRE, CVM, None, build_cv_given::<2>, fp_cv, None);
     r.model::<CountVectorizer>("cv_model_fn_tokenizer", PRE, CVM, None, build_cv::<10>, fp_cv_fn_tokenizer, None);
     r.model::<CountVectorizer>("cv_model_fn_tokenizer_ngram_cap", PRE, CVM, None, build_cv::<11>, fp_cv_fn_tokenizer, None);
+    r.model::<CountVectorizer>("cv_model_fn_tokenizer_regenerated", PRE, CVM, None, build_cv_regenerated, fp_cv_fn_tokenizer, None);
 
     // ---------------- tf-idf
     for m in 0..3u8 {
@@ -1527,6 +1544,7 @@ pub fn register(r: &mut Registry) {
     r.model::<FittedTfIdfVectorizer>("tfidf_model_combined_nonsmooth", PRE, TM, None, build_tfidf::<8, 1>, fp_tfidf, None);
     r.model::<FittedTfIdfVectorizer>("tfidf_model_maxfeat_textbook", PRE, TM, None, build_tfidf::<7, 2>, fp_tfidf, None);
     r.model::<FittedTfIdfVectorizer>("tfidf_model_fn_tokenizer", PRE, TM, None, build_tfidf::<10, 0>, fp_tfidf_fn_tokenizer, None);
+    r.model::<FittedTfIdfVectorizer>("tfidf_model_fn_tokenizer_regenerated", PRE, TM, None, build_tfidf_regenerated, fp_tfidf_fn_tokenizer, None);
     r.model::<TfIdfMethod>("tfidf_method_smooth", PRE, &["TfIdfMethod"], None, build_tfidf_method::<0>, fp_tfidf_method, Some(|a, b| a == b));
     r.model::<TfIdfMethod>("tfidf_method_nonsmooth", PRE, &["TfIdfMethod"], None, build_tfidf_method::<1>, fp_tfidf_method, Some(|a, b| a == b));
     r.model::<TfIdfMethod>("tfidf_method_textbook", PRE, &["TfIdfMethod"], None, build_tfidf_method::<2>, fp_tfidf_method, Some(|a, b| a == b));
